@@ -31,7 +31,29 @@ type Facts struct {
 	Anchors    map[string]int         `json:"anchors"`
 	Secure     []int                  `json:"secure"`
 	Direct     []int                  `json:"direct"`
+	Clock      []int                  `json:"clock"`
+	Barrier    []int                  `json:"barrier"`
+	RandErr    []RandErrSite          `json:"rand_err"`
+	FloatSums  []FloatSum             `json:"float_sums"`
 	Extra      map[string]interface{} `json:"extra"`
+}
+
+// FloatSum: a float64 running sum in a consensus function that ranges over a map.
+type FloatSum struct {
+	Func     string `json:"func"`
+	Node     int    `json:"node"`
+	At       string `json:"at"`
+	Integral bool   `json:"integral"`
+}
+
+// RandErrSite: a call on a key path that draws from crypto/rand and returns an error.
+type RandErrSite struct {
+	Func   string `json:"func"`
+	Node   int    `json:"node"`
+	Callee string `json:"callee"`
+	At     string `json:"at"`
+	Kind   string `json:"kind"`
+	Why    string `json:"why,omitempty"`
 }
 
 // Root is the /verif directory (the driver runs harness binaries from it).
